@@ -163,8 +163,26 @@ def add_extras(case, recipe, root, exp, res):
         (root / "mac_c.c").write_bytes(f"/*\r * SPDX-FileCopyrightText: 2004 Extra Holder\r * SPDX-License-Identifier: {lid}\r */\rint m;\r".encode())
         exp["covered"] |= {"mac_lines.py", "mac_c.c"}
         res.cell("extra:cr-only-line-ends")
+    if recipe["global_mode"] != "dep5" and case["k"] % 3 == 1 and not (root / "blank").exists():
+        # a table that states the licence and, as copyright, an empty string: no copyright notice at all
+        (root / "blank").mkdir()
+        (root / "blank" / "REUSE.toml").write_text(hdr + 'version = 1\n\n[[annotations]]\npath = "blob.csv"\nSPDX-FileCopyrightText = ""\n'
+                                                   f'SPDX-License-Identifier = "{lid}"\n')
+        (root / "blank" / "blob.csv").write_text("1,2,3\n")
+        exp["covered"] |= {"blank/REUSE.toml", "blank/blob.csv"}
+        exp["missing_copyright_info"].add("blank/blob.csv")
+        exp["compliant"] = False
+        res.cell("extra:empty-string-as-copyright-in-a-table")
     if case["git"]:
-        (root / ".gitignore").write_text(hdr + "*.log\nbuild/\n")
+        # (two names that differ in Unicode normalisation only are two files: one ignored, one covered)
+        (root / "r\u00e9sum\u00e9.txt").write_text("ignored, no header\n")
+        (root / "re\u0301sume\u0301.txt").write_text("covered, no header\n")
+        exp["covered"].add("re\u0301sume\u0301.txt")
+        exp["missing_copyright_info"].add("re\u0301sume\u0301.txt")
+        exp["missing_licensing_info"].add("re\u0301sume\u0301.txt")
+        exp["compliant"] = False
+    if case["git"]:
+        (root / ".gitignore").write_text(hdr + "*.log\nbuild/\nr\u00e9sum\u00e9.txt\n")
         (root / "newmod").mkdir(exist_ok=True)
         (root / "newmod" / "util.py").write_text(hdr + "x = 1\n")
         (root / "newmod" / "cache.log").write_text("ignored, no header\n")
